@@ -49,7 +49,7 @@ def host_for(name):
 def ob_pattern(ob):
     import z3  # noqa
     from engine.ambig import Amb
-    from engine.rx import Unsupported
+    from engine.rx import Unsupported, UCHARS as UCH
     from props.c16_ref import slow, MAXLEN, THRESHOLD
     name = ob.params['pattern']
     pat = inventory()[name]
@@ -81,13 +81,25 @@ def ob_pattern(ob):
                 excl.add(w['state'])
                 continue
             found = None
-            for suffix in ('x', '~', ''):
-                room = MAXLEN - len(pre) - len(prefix) - len(suffix)
-                n = max(1, room // max(1, len(w['pump'])))
-                text = pre + prefix + w['pump'] * n + suffix
-                is_slow, dt2 = slow(text, cfg)
-                if is_slow:
-                    found = (text, dt2)
+            pumps = [w['pump']]
+            if kind == 'chain':
+                # a run that alternates two characters of the common class can defeat sre's single-character fast paths
+                common = set(UCH)
+                for q_ in w['chain']:
+                    common &= set(A.nfa.ch[q_][0])
+                reps = [c for c in (' ', '\n', '\t', '.', '-', ',') if c in common] or sorted(common)[:2]
+                pumps += [a_ + b_ for a_ in reps[:3] for b_ in reps[:3] if a_ != b_][:4]
+            for pump in pumps:
+                for suffix in ('x', '~', ''):
+                    room = MAXLEN - len(pre) - len(prefix) - len(suffix)
+                    n = max(1, room // max(1, len(pump)))
+                    text = pre + prefix + pump * n + suffix
+                    is_slow, dt2 = slow(text, cfg)
+                    if is_slow:
+                        found = (text, dt2)
+                        w = dict(w, pump=pump)
+                        break
+                if found:
                     break
             if found:
                 confirmed = dict(w, text=found[0], seconds=found[1])
